@@ -88,6 +88,8 @@ class AttributeCollection(MutableMapping[int, Attribute]):
     previous: ClassVar[Buffer] = b''
     # whether the session 'previous' was parsed for had negotiated 4-byte AS numbers
     previous_asn4: ClassVar[bool] = False
+    # whether that session accepted AIGP (RFC 7311): without it the attribute is discarded
+    previous_aigp: ClassVar[bool] = False
 
     representation: ClassVar[dict[int, tuple[str, str, str | tuple[str, ...], str, str]]] = {
         # key:  (how, default, name, text_presentation, json_presentation),
@@ -362,7 +364,13 @@ class AttributeCollection(MutableMapping[int, Attribute]):
     def unpack(cls, data: Buffer, negotiated: Negotiated) -> AttributeCollection:
         # the same bytes decode differently with and without 4-byte AS numbers (AS_PATH,
         # AGGREGATOR): the cached result only stands for a session negotiated alike
-        if cls.cached and data == cls.previous and negotiated.asn4 == cls.previous_asn4:
+        # the same goes for AIGP, which is only accepted on a session configured for it
+        if (
+            cls.cached
+            and data == cls.previous
+            and negotiated.asn4 == cls.previous_asn4
+            and negotiated.aigp == cls.previous_aigp
+        ):
             return cls.cached
 
         attributes = cls().parse(data, negotiated)
@@ -376,6 +384,7 @@ class AttributeCollection(MutableMapping[int, Attribute]):
         if Attribute.CODE.MP_REACH_NLRI not in attributes and Attribute.CODE.MP_UNREACH_NLRI not in attributes:
             cls.previous = data
             cls.previous_asn4 = negotiated.asn4
+            cls.previous_aigp = negotiated.aigp
             cls.cached = attributes
         else:
             cls.previous = b''
